@@ -492,6 +492,9 @@ class Interp:
                         self._record(s3, node, t, True)
                         out.append((s3, t))
             return out, raises
+        alt = self.rule.truth_as(self, st, node) if isinstance(node, (ast.Name, ast.Attribute)) else None
+        if alt is not None:
+            return self.truth_fork(st, alt)  # the rule knows what the truth of this object means (e.g. a container's __len__)
         vals, raises = self.eval(st, node)
         out = []
         for s, av in vals:
@@ -1790,6 +1793,10 @@ class BaseRule:
         return f"{op}(" + ",".join(args) + ")"
 
     def global_value(self, it, name):
+        return None
+
+    def truth_as(self, it, st, node):
+        """an expression whose truth is, by the object's protocol, the truth of `node` (None: no special meaning)"""
         return None
 
     def on_yield(self, it, stmt, av, outs):
